@@ -16,6 +16,8 @@ Good(ev) ==
           /\ \/ ev.op = "Create" /\ Create(a.shape, a.layout, a.fillset, a.fillmode)
              \/ ev.op = "Write"  /\ DataOK(a) /\ WriteK(a.start, a.stride, a.count, KOf(a))
              \/ ev.op = "Read"   /\ Read(a.start, a.stride, a.count)
+             \/ ev.op = "WriteChunk" /\ DataOK(a) /\ WriteChunk(a.origin, KOf(a))
+             \/ ev.op = "ReadChunk"  /\ ReadChunk(a.origin)
              \/ ev.op = "Info"   /\ Info
              \/ ev.op = "Reopen" /\ Reopen
           /\ CellsOK(out', o)
